@@ -66,7 +66,7 @@ var zodiacFest = ev.Register(&ev.P[dayCase]{
 		}
 		// festivals
 		wd := ref.Weekday(c.J)
-		occ := 0  // which occurrence of this weekday in the month today is
+		occ := 0 // which occurrence of this weekday in the month today is
 		last := true
 		for dd := 1; dd <= 31; dd++ {
 			if !ref.ValidDate(y, m, dd) || ref.Weekday(ref.JDN(y, m, dd)) != wd {
